@@ -372,11 +372,12 @@ class JSON:
         minus: dict[tuple[Any, Any], list[Any]] = {}
 
         # EOR messages have .nlris directly but no .announces/.withdraws
-        if getattr(update_msg, 'IS_EOR', False):
+        if getattr(update_msg, 'IS_EOR', False) and update_msg.nlris:
             # An End-of-RIB carries no route: it is reported as { "eor": { afi, safi } }.  Filing its
             # pseudo NLRI under "announce" produced `"null": [ "eor": { ... } ]`, which is not JSON
             return {'message': self._json(f'{{ {self._nlri_to_json(update_msg.nlris[0])} }}')}
         else:
+            # (the cached UpdateCollection flavour of an EOR has no nlris and renders as an empty update)
             # UpdateCollection - get nexthop from RoutedNLRI container
             for routed in update_msg.announces:
                 nlri = routed.nlri
